@@ -6,13 +6,26 @@ pub struct ReadEv { pub ks: u64, pub instant: u64, pub scan: bool, pub local: bo
 pub struct BItemV { pub ks: u64, pub key: Seq<u8>, pub value: Seq<u8>, pub vt: ValueType }
 pub struct RWorld { pub reads: Seq<ReadEv>, pub committed: Seq<Seq<BItemV>> }   // read log; batches handed to WriteBatch::commit
 pub struct AnyTreeR { pub id: Ghost<u64> }
-pub struct IterGuardImpl { pub dummy: u8 }
+pub struct IterGuardImpl { pub id: Ghost<int> }   // one item of a scan (identity)
+impl Guard {
+    // Guard::key (src/guard.rs: self.0.key().map_err(Into::into)): loads the key, may fail with an I/O error (key-value separation)
+    #[verifier::external_body] pub fn key(self) -> (r: FjResult<UserKey>) { unimplemented!() }
+}
 pub struct Guard(pub IterGuardImpl);
 /// the boxed lsm-tree iterator: remembers at which instant (and over which local memtable) it was opened
-pub struct InnerIter { pub ks: Ghost<u64>, pub at: Ghost<u64>, pub local: Ghost<Option<u64>> }
+pub struct InnerIter { pub ks: Ghost<u64>, pub at: Ghost<u64>, pub local: Ghost<Option<u64>>,
+    pub todo: Ghost<Seq<int>> }   // identities of the items not yet yielded, in key order (a double-ended iterator takes from either end)
 impl InnerIter {
-    #[verifier::external_body] pub fn next(&mut self) -> (r: Option<IterGuardImpl>) ensures final(self).at == old(self).at, final(self).ks == old(self).ks { unimplemented!() }
-    #[verifier::external_body] pub fn next_back(&mut self) -> (r: Option<IterGuardImpl>) ensures final(self).at == old(self).at, final(self).ks == old(self).ks { unimplemented!() }
+    #[verifier::external_body] pub fn next(&mut self) -> (r: Option<IterGuardImpl>)
+        ensures final(self).at == old(self).at, final(self).ks == old(self).ks, final(self).local == old(self).local,
+            r is Some == (old(self).todo@.len() > 0), r matches Some(g) ==> g.id@ == old(self).todo@[0] && final(self).todo@ == old(self).todo@.skip(1),
+            r is None ==> final(self).todo == old(self).todo,
+    { unimplemented!() }
+    #[verifier::external_body] pub fn next_back(&mut self) -> (r: Option<IterGuardImpl>)
+        ensures final(self).at == old(self).at, final(self).ks == old(self).ks, final(self).local == old(self).local,
+            r is Some == (old(self).todo@.len() > 0), r matches Some(g) ==> g.id@ == old(self).todo@.last() && final(self).todo@ == old(self).todo@.drop_last(),
+            r is None ==> final(self).todo == old(self).todo,
+    { unimplemented!() }
 }
 pub struct MemtableArc { pub id: Ghost<int>, pub items: Ghost<Seq<IV>> }     // Arc<lsm_tree::Memtable>: a transaction's local write set for one keyspace (identity, versions in iteration order)
 pub struct IV { pub key: Seq<u8>, pub value: Seq<u8>, pub vt: ValueType, pub seqno: u64 }   // one version as Memtable::iter yields it
@@ -51,15 +64,15 @@ impl AnyTreeR {
     #[verifier::external_body]
     pub fn iter(&self, seqno: u64, index: Option<(MemtableArc, u64)>, Tracked(w): Tracked<&mut RWorld>) -> (r: InnerIter)
         ensures final(w).reads == old(w).reads.push(ReadEv { ks: self.id@, instant: seqno, scan: true, local: index is Some }),
-                r.ks == self.id, r.at@ == seqno, r.local@ == local_of(index) { unimplemented!() }
+                r.ks == self.id, r.at@ == seqno, r.local@ == local_of(index), r.todo@.len() < usize::MAX { unimplemented!() }   // ASSUMED: fewer than 2^64 items
     #[verifier::external_body]
     pub fn range<K: AsRef<[u8]>, R: std::ops::RangeBounds<K>>(&self, range: R, seqno: u64, index: Option<(MemtableArc, u64)>, Tracked(w): Tracked<&mut RWorld>) -> (r: InnerIter)
         ensures final(w).reads == old(w).reads.push(ReadEv { ks: self.id@, instant: seqno, scan: true, local: index is Some }),
-                r.ks == self.id, r.at@ == seqno, r.local@ == local_of(index) { unimplemented!() }
+                r.ks == self.id, r.at@ == seqno, r.local@ == local_of(index), r.todo@.len() < usize::MAX { unimplemented!() }   // ASSUMED: fewer than 2^64 items
     #[verifier::external_body]
     pub fn prefix<K: AsRef<[u8]>>(&self, prefix: K, seqno: u64, index: Option<(MemtableArc, u64)>, Tracked(w): Tracked<&mut RWorld>) -> (r: InnerIter)
         ensures final(w).reads == old(w).reads.push(ReadEv { ks: self.id@, instant: seqno, scan: true, local: index is Some }),
-                r.ks == self.id, r.at@ == seqno, r.local@ == local_of(index) { unimplemented!() }
+                r.ks == self.id, r.at@ == seqno, r.local@ == local_of(index), r.todo@.len() < usize::MAX { unimplemented!() }   // ASSUMED: fewer than 2^64 items
 }
 /// every read event appended between two worlds was issued at `instant`
 pub open spec fn reads_only_at(o: RWorld, n: RWorld, instant: u64) -> bool {
